@@ -507,7 +507,7 @@ def reader_entry_rule(repo: Repo, rep, P: str):
                                       f"{rel}:{n.lineno}")
                     else:
                         rep.ok(f"{P}.R4", f"{rel}:{qn}", norm(n), "section reader inside rv.readers", nontrivial=False)
-    rep.count("reader_construction_sites", n_sites, 7)
+    rep.count("reader_construction_sites", n_sites, 4)
     # nested loads re-enter read_sunvox_file
     nested = [("MetaModule", "rv.modules.metamodule", "load_project"),
               ("Sampler", "rv.modules.sampler", "load_chunk"),
